@@ -109,7 +109,15 @@ func ExponentialBackoff(backoff time.Duration, factor, jitter float64) Backoff {
 
 		// do exponential backoff with jitter
 		temp := float64(backoff) * math.Pow(factor, float64(attempt))
-		return time.Duration(temp*(1-jitter)) + time.Duration(rand.Int64N(int64(2*jitter*temp)))
+		if !(temp*(1+jitter) < math.MaxInt64) {
+			// the interval does not fit in a time.Duration: saturate
+			return time.Duration(math.MaxInt64)
+		}
+		interval := time.Duration(temp * (1 - jitter))
+		if n := int64(2 * jitter * temp); n > 0 {
+			interval += time.Duration(rand.Int64N(n))
+		}
+		return interval
 	}
 }
 
